@@ -187,7 +187,7 @@ def subsets(n):
 
 
 # ------------------------------------------------------------------ names
-HOSTILE_CHARS = ".+[](){}^$|\\*?\"' -_:;<>#%&=~`,!@"
+HOSTILE_CHARS = ".+[](){}^$|\\*?\"' -_:;<>#%&=~`,!@/"
 PLAIN_CHARS = "abcdeXYZ019"
 # characters on which upper/lower/casefold/re.IGNORECASE agree pairwise
 CASE_PAIRS = "aAbBzZéÉжЖ"
@@ -272,7 +272,8 @@ def random_json_value(rng, depth=0):
 
 
 def random_key(rng, identifiers_only=False):
-    pool = ["a", "b", "id", "foo", "bar", "x1", "_p", "__q", "Name", "été", "value", "k9", "lng", "zz"]
+    # incl. names that are also read-only properties of the node mixins (the stored value lives in the instance dict)
+    pool = ["a", "b", "id", "foo", "bar", "x1", "_p", "__q", "Name", "été", "value", "k9", "lng", "zz", "size", "height", "depth", "is_leaf", "leaves"]
     if not identifiers_only:
         pool = pool + ["with space", "1abc", "a-b", "", "中", "class", "a.b", 'q"uote']
     return rng.choice(pool)
